@@ -2,6 +2,7 @@
 #![allow(unused_imports, dead_code, clippy::all, static_mut_refs)]
 pub mod env;
 pub mod stubs;
+pub mod gen_slices;
 
 #[cfg(kani)]
 pub mod h_basic;
@@ -9,6 +10,10 @@ pub mod h_basic;
 pub mod h_election;
 #[cfg(kani)]
 pub mod h_repl;
+#[cfg(kani)]
+pub mod h_role;
+#[cfg(kani)]
+pub mod h_kernels;
 
 #[cfg(kani)]
 mod probe;
